@@ -5,6 +5,7 @@ package main
 // KNOWN-FINDING / VIOLATION lines; `vmon replay <file>` re-executes an explicit history.
 
 import (
+	sdk "github.com/cosmos/cosmos-sdk/types"
 	"bufio"
 	"encoding/json"
 	"fmt"
@@ -635,8 +636,17 @@ func DumpSnap(w *World, s *Snap) {
 	for _, r := range s.Redels {
 		fmt.Printf("  redel %s %s->%s %s %s at %s\n", w.Name(r.Del), w.Name(r.Src), w.Name(r.Dst), r.Denom, r.Amount, r.Completion.Format(time.RFC3339Nano))
 	}
-	for _, a := range []string{w.ModAddr.String(), w.PoolAddr.String(), w.FcAddr.String()} {
+	for _, a := range sortedKeys(s.Bal) {
 		fmt.Printf("  bal %s %s\n", w.Name(a), s.Bal[a])
+	}
+	fmt.Printf("  supply %s\n", s.Supply)
+	if os.Getenv("VMON_ALLBAL") != "" {
+		w.App.BankKeeper.IterateAllBalances(w.Ctx, func(a sdk.AccAddress, c sdk.Coin) bool {
+			if _, ok := s.Bal[a.String()]; !ok && c.Denom == os.Getenv("VMON_ALLBAL") {
+				fmt.Printf("  other holder %s %s\n", a, c)
+			}
+			return false
+		})
 	}
 }
 
